@@ -337,7 +337,7 @@ func cmdCheck(args []string) int {
 	{
 		failedBy := map[*FuncGen]bool{}
 		for _, r := range results {
-			ok := (r.V.Status == "unsat" && !r.O.WantSat) || (r.V.Status == "sat" && r.O.WantSat)
+			ok := oblOK(r)
 			if !ok && r.O.AssumeIdx > 0 {
 				if r.O.Gen.disabled == nil {
 					r.O.Gen.disabled = map[int]bool{}
@@ -350,7 +350,7 @@ func cmdCheck(args []string) int {
 			var again []*Obligation
 			var idx []int
 			for i, r := range results {
-				ok := (r.V.Status == "unsat" && !r.O.WantSat) || (r.V.Status == "sat" && r.O.WantSat)
+				ok := oblOK(r)
 				if ok && failedBy[r.O.Gen] && !r.O.WantSat {
 					again = append(again, r.O)
 					idx = append(idx, i)
@@ -388,7 +388,7 @@ func cmdCheck(args []string) int {
 		var again []*Obligation
 		var idx []int
 		for i, r := range results {
-			ok := (r.V.Status == "unsat" && !r.O.WantSat) || (r.V.Status == "sat" && r.O.WantSat)
+			ok := oblOK(r)
 			if !ok && (r.V.Status == "timeout" || r.V.Status == "unknown") && (baseline[baseName(r.O.Name)] || provedFuncs[r.O.Func]) {
 				again = append(again, r.O)
 				idx = append(idx, i)
@@ -410,7 +410,7 @@ func cmdCheck(args []string) int {
 	groups := map[string]*failGroup{}
 	var groupOrder []string
 	for _, r := range results {
-		ok := (r.V.Status == "unsat" && !r.O.WantSat) || (r.V.Status == "sat" && r.O.WantSat)
+		ok := oblOK(r)
 		seenNames[baseName(r.O.Name)] = true
 		rep := oblReport{Name: r.O.Name, Kind: r.O.Kind, Status: r.V.Status, Solver: r.V.Solver, Seconds: r.V.Seconds, Cached: r.V.Cached, Pos: r.O.Pos, Desc: r.O.Desc}
 		reports = append(reports, rep)
@@ -536,7 +536,7 @@ func cmdCheck(args []string) int {
 		nm := map[string]bool{}
 		bad := map[string]bool{}
 		for _, r := range reports {
-			ok := r.Status == "unsat" || (r.Kind == "cover.pre" && r.Status == "sat")
+			ok := r.Status == "unsat" || (r.Kind == "cover.pre" && r.Status != "unsat")
 			if !ok {
 				bad[baseName(r.Name)] = true
 			}
@@ -564,6 +564,15 @@ func cmdCheck(args []string) int {
 	fmt.Printf("%s %s: %d obligations, %d discharged, %d undecided, %d known findings, %d violations, %.1fs (load %.1fs, solver %.1fs)\n",
 		id, *tier, required, discharged, len(undecided), len(knownHit), len(violations), wall, loadS, solverTime)
 	return exit
+}
+
+// oblOK: an ordinary obligation must be unsat; a cover obligation (vacuity
+// check) fails only when the solver shows the precondition unsatisfiable.
+func oblOK(r Result) bool {
+	if r.O.WantSat {
+		return r.V.Status != "unsat"
+	}
+	return r.V.Status == "unsat"
 }
 
 func loadBaseline(path string) (map[string]bool, map[string]bool) {
